@@ -26,6 +26,29 @@ CHECKS = {
     },
 }
 
+CHECKS.update({
+    "C03": {
+        "text": "Bounded model checking of flip/swap/swap_adjacent/cofactors/from_cofactors (copying and in-place) on fully symbolic tables with symbolic indices i, j < n and a symbolic assignment: result bit m equals the defining source bit, so all three storage regimes (in-word, mixed, cross-word) are inside one query per (type, n, method). quick: LutN n=1..8, Lut n in {1,3,6,7,8,+1 seeded}; thorough: both types n=1..12 (n=12 optional under a cap). Lut n=13,14 outside the claim.",
+        "design_ref": "DESIGN.md section 5 / C03",
+        "technique": "Kani/CBMC bounded model checking, symbolic tables/indices/assignment, SAT (CaDiCaL)",
+    },
+    "C08": {
+        "text": "Bounded model checking of Ord/PartialOrd/Eq consistency against a most-significant-word-first numeric comparison (symbolic pairs and triples, Lut pairs of different n), of the successor kernel next_inplace from an ARBITRARY well-formed table (kernel-level lemma: multi-word carry, wrap to zero, no check fires) for n=0..9 (thorough ..12), and complete runs of the public iterator for n<=2 (thorough n=3). Hex-string order is not asserted here (it follows from C09's fixed-width MSB-first rendering).",
+        "design_ref": "DESIGN.md section 5 / C08",
+        "technique": "Kani/CBMC bounded model checking; one inductive successor step from an arbitrary state instead of iterating 2^(2^n) items",
+    },
+    "C11": {
+        "text": "Bounded model checking of every named constructor against its definition via popcount(m) with a symbolic assignment and the parameter (k, c, i) ranging over ALL usize values (covers pin k in {n+1, 63, 64, 65, usize::MAX}). quick: LutN n=0..8, Lut n in {0,3,6,7,8,+1 seeded}; thorough: n=0..12 both types.",
+        "design_ref": "DESIGN.md section 5 / C11",
+        "technique": "Kani/CBMC bounded model checking, parameter k/c fully symbolic over usize, SAT (CaDiCaL)",
+    },
+    "C17": {
+        "text": "Bounded model checking in two build configurations (dev: debug assertions on; rel: debug assertions compiled out) that every index-/assignment-/table-/slice-taking method never returns on an invalid argument (cover RETURNED unreachable; index in [n,n+70] U {usize::MAX}, assignment in [2^n,2^n+70] U {usize::MAX}, slice length in 0..=T+2 except T, Lut pairs of different n) for n=0..8; plus valid-argument harnesses showing no debug-only check can fire. Overflow-dependent panics seen only in Kani's rel configuration (which keeps rustc overflow checks) are decided by native replay in a real --release build, sweeping the invalid argument over its whole range.",
+        "design_ref": "DESIGN.md section 5 / C17",
+        "technique": "Kani/CBMC reachability (cover) queries in two build configurations + native release replay of solver counterexamples",
+    },
+})
+
 NOT_APPLICABLE = {
     "C07": "bdd_complexity is Vec push/retain/sort/dedup under symbolic conditions: a single symbolic function at n=2 does not finish in 900 s under Kani/CBMC (n<=1 is vacuous); no bound at which the property says anything is reachable by the solver",
     "C14": "every Sop operation goes through from_cubes ((0..32).filter over a symbolic mask) or conditional Vec::push and ends in simplify (retain/sort/dedup): '|' and '&' on 1x1 cubes at n=2 exceed 900 s under Kani/CBMC; cube-level facts it relies on are decided in C12",
